@@ -175,7 +175,6 @@ func GHASH(H []byte, A []byte, C []byte) (X []byte) {
 		copy(X[(m+n)*BlockSize:(m+n)*BlockSize+BlockSize], multiplication(addition(X[(m+n-1)*BlockSize:(m+n-1)*BlockSize+BlockSize], Cn), H))
 	}
 
-
 	//i=m+n+1
 	var lenAB []byte
 	calculateLenToBytes := func(len int) []byte {
@@ -205,8 +204,10 @@ func GHASH(H []byte, A []byte, C []byte) (X []byte) {
 func GetY0(H, IV []byte) []byte {
 	if len(IV)*8 == 96 {
 		zero31one1 := []byte{0x00, 0x00, 0x00, 0x01}
-		IV = append(IV, zero31one1...)
-		return IV
+		// J0 = IV || 0^31 || 1, built in fresh memory (never append to the caller's IV)
+		Y0 := make([]byte, 0, BlockSize)
+		Y0 = append(Y0, IV...)
+		return append(Y0, zero31one1...)
 	} else {
 		return GHASH(H, []byte{}, IV)
 	}
